@@ -181,6 +181,38 @@ def unit_ppo_lemmas(S):
             what="with every ratio 1 (inside the clip interval) the policy term is -mean(A)")
 
 
+def native_pg_replay(cls, normalize):
+    """R1: the real a2c_loss / reinforce_loss on a concrete MLP policy vs the published objective, on random batches AND degenerate ones (all advantages equal, a single
+    sample, all-zero advantages) where advantage normalisation divides by (almost) nothing."""
+    def replay(model):
+        from lerax.policy import MLPActorCriticPolicy
+        from lvc.generic import GenericEnv
+        rng = np.random.RandomState(6)
+        E = GenericEnv(Box(-jnp.ones((2,)), jnp.ones((2,))))
+        pol = MLPActorCriticPolicy(E, feature_size=4, feature_width=8, value_width=8, action_width=8, key=jax.random.key(0))
+        cases = [("random", int(rng.randint(2, 7)), None) for _ in range(4)] + [("all advantages equal", 4, 1.7), ("single sample", 1, None), ("all advantages zero", 3, 0.0), ("all advantages equal (negative)", 5, -0.3)]
+        for label, B, const in cases:
+            obs, act = jnp.asarray(rng.randn(B, 2), f32), jnp.asarray(rng.randn(B, 2), f32)
+            _, v, lp, H = jax.vmap(pol.evaluate_action)(None, obs, act)
+            ret = v + jnp.asarray(rng.randn(B) * 2.0, f32)
+            adv = jnp.asarray(rng.randn(B), f32) if const is None else jnp.full((B,), const, f32)
+            buf = RolloutBuffer(obs, act, jnp.zeros(B), jnp.zeros(B, bool), lp, v, None, None, ret, adv)
+            cv, ce = 0.5, 0.01
+            if cls is A2C:
+                loss, stats = A2C.a2c_loss(pol, buf, normalize, cv, ce)
+                sp = spec_pg(pol, buf, normalize, cv, ce)
+            else:
+                loss, stats = REINFORCE.reinforce_loss(pol, buf, normalize, cv)
+                sp = spec_pg(pol, buf, normalize, cv, None)
+            got = dict(loss=float(loss), policy_loss=float(stats.policy_loss), value_loss=float(stats.value_loss))
+            exp = {k: float(sp[k]) for k in got}
+            if any(not (abs(got[k] - exp[k]) <= 1e-4 * (1 + abs(exp[k]))) for k in got):
+                return dict(reproduced=True, route=f"R1 (real {cls.__name__} loss on a real MLPActorCriticPolicy)", inputs=dict(case=label, B=B, normalize_advantages=normalize, advantages=np.asarray(adv).tolist()),
+                            observed=dict(real=got, published_objective=exp))
+        return dict(reproduced=False, note=f"{len(cases)} batches incl. degenerate advantage vectors agree with the published objective")
+    return replay
+
+
 def unit_pg(S):
     for cls, fnname, F in ((A2C, "a2c_loss", F_A2C), (REINFORCE, "reinforce_loss", F_RF)):
         S.under_contract(F)
@@ -197,12 +229,13 @@ def unit_pg(S):
                 sp = run(ctx, lambda p, b, a: spec_pg(p, b, normalize, a, None), pol, buf, cv)
             Bz = ctx.dim(B)
             tag = f"{cls.__name__}[normalize={normalize}]"
+            rp_pg = native_pg_replay(cls, normalize)
             pairs = [("policy_loss", stats.policy_loss), ("value_loss", stats.value_loss), ("loss", loss), ("reported-total", stats.total_loss)]
             if cls is A2C:
                 pairs.append(("entropy_loss", stats.entropy_loss))
             for nm, real in pairs:
                 target = sp["loss"] if nm == "reported-total" else sp[nm]
-                S.prove(f"{tag}/{nm}", ctx, ir.seq(real.scalar(), target.scalar()), hyps=[Bz >= 1], function=F,
+                S.prove(f"{tag}/{nm}", ctx, ir.seq(real.scalar(), target.scalar()), hyps=[Bz >= 1], function=F, replay=rp_pg,
                         what=f"{nm}: -mean(log pi * A) + c_v * mean((v-R)^2)/2" + (" + c_e * (-mean H)" if cls is A2C else ""))
 
 
